@@ -57,12 +57,18 @@ class Out:
     self.nontrivial = False
     self.inconclusive = False
     self.notes = {}
+    self.counters = {}  # extra integer counters, summed into the evidence
+    self.nt_keys = None  # optional: distinct non-trivial sub-cases (hashes)
 
   def violate(self, bucket, detail=''):
     detail = str(detail)
     if len(detail) > 1500:
       detail = detail[:1500] + '...'
     self.violations.append({'bucket': str(bucket), 'detail': detail})
+    return self
+
+  def count(self, name, k=1):
+    self.counters[name] = self.counters.get(name, 0) + k
     return self
 
   def cls(self, *names):
@@ -142,7 +148,11 @@ def load_known(pid):
   return recs
 
 
-def match_known(recs, family, bucket):
+def match_known(recs, family, bucket, prefer=None):
+  if prefer is not None and prefer.get('status') == 'known' and (
+      prefer.get('family') in (None, family)) and fnmatch.fnmatchcase(
+          bucket, prefer['bucket']):
+    return prefer
   for r in recs:
     if r.get('status') != 'known':
       continue
@@ -179,7 +189,7 @@ def worker_main(args):
       'family': fam.name, 'shard': args.shard, 'evaluations': 0,
       'nontrivial': [], 'classes': collections.Counter(), 'samples': [],
       'buckets': {}, 'harness_errors': [], 'inconclusive': 0,
-      'exhaustive': False,
+      'exhaustive': False, 'counters': collections.Counter(),
   }
   nt = set()
   deadline = t0 + args.time_cap if args.time_cap else None
@@ -197,6 +207,9 @@ def worker_main(args):
       rep['classes'][c] += 1
     if out.inconclusive:
       rep['inconclusive'] += 1
+    rep['counters'].update(out.counters)
+    if out.nt_keys:
+      nt.update(out.nt_keys)
     if out.nontrivial:
       h = case_hash(case)
       if h not in nt:
@@ -270,6 +283,7 @@ def worker_main(args):
       rep['shrunk'] = best
   rep['nontrivial'] = sorted(nt)
   rep['classes'] = dict(rep['classes'])
+  rep['counters'] = dict(rep['counters'])
   rep['wall_s'] = time.time() - t0
   with open(args.out, 'w') as f:
     json.dump(rep, f, allow_nan=True)
@@ -399,9 +413,9 @@ def orchestrate(args):
       harness_errors.append('pinned %s: %s' % (rp, err))
       continue
     for v in out.violations:
-      k = match_known(known, rec['family'], v['bucket'])
+      k = match_known(known, rec['family'], v['bucket'], prefer=r)
       if k is not None:
-        known_seen[k['bucket']] = k
+        known_seen[k.get('replay') or k['bucket']] = k
       else:
         violations.append((rec['family'], v['bucket'], path, v['detail']))
 
@@ -427,7 +441,8 @@ def orchestrate(args):
     m = merged.setdefault(j['family'], {
         'evaluations': 0, 'nontrivial': set(), 'classes': collections.Counter(),
         'samples': [], 'buckets': {}, 'inconclusive': 0, 'exhaustive': False,
-        'failed_shards': 0, 'budget_hit': 0})
+        'failed_shards': 0, 'budget_hit': 0,
+        'counters': collections.Counter()})
     if rep is None:
       m['failed_shards'] += 1
       tail = ''
@@ -445,6 +460,7 @@ def orchestrate(args):
     m['evaluations'] += rep['evaluations']
     m['nontrivial'].update(rep['nontrivial'])
     m['classes'].update(rep['classes'])
+    m['counters'].update(rep.get('counters', {}))
     m['inconclusive'] += rep['inconclusive']
     m['exhaustive'] = m['exhaustive'] or rep.get('exhaustive', False)
     if rep.get('budget_hit'):
@@ -477,7 +493,7 @@ def orchestrate(args):
     for b, info in sorted(m['buckets'].items()):
       k = match_known(known, f.name, b)
       if k is not None:
-        known_seen[k['bucket']] = k
+        known_seen.setdefault(k.get('replay') or k['bucket'], k)
         continue
       new_buckets.append((f, b, info))
   for f, b, info in new_buckets[:4]:
@@ -512,6 +528,11 @@ def orchestrate(args):
 
   # 4. evidence
   evaluations = sum(m['evaluations'] for m in merged.values()) + pinned_run
+  eval_counter = getattr(mod, 'EVAL_COUNTER', None)
+  generated_cases = evaluations
+  if eval_counter:
+    evaluations = sum(m['counters'].get(eval_counter, 0)
+                      for m in merged.values()) + pinned_run
   nt_all = set()
   for fn, m in merged.items():
     nt_all.update(fn + ':' + h for h in m['nontrivial'])
@@ -532,6 +553,7 @@ def orchestrate(args):
       fn: {'evaluations': m['evaluations'],
            'distinct_nontrivial': len(m['nontrivial']),
            'inconclusive_cases': m['inconclusive'],
+           'counters': dict(m['counters']),
            'exhaustive_enumeration_part': m['exhaustive'],
            'failed_or_timed_out_shards': m['failed_shards'],
            'violation_buckets': {b: i['count']
@@ -547,12 +569,13 @@ def orchestrate(args):
           'samples': samples[:6],
           'classes': classes,
           'per_family': per_family,
+          'generated_cases': generated_cases,
           'pinned_regression_cases_run': pinned_run,
           'inconclusive_cases': sum(m['inconclusive'] for m in merged.values()),
           'exhaustive': bool(merged) and all(
               m['exhaustive'] and not f.strategy
               for f in fams for m in [merged.get(f.name)] if m),
-          'known_findings_seen': sorted(known_seen),
+          'known_findings_seen': sorted(k['what'][:120] for k in known_seen.values()),
           'new_violation_buckets': [
               {'family': a, 'bucket': b, 'replay': os.path.relpath(c, VERIF)}
               for a, b, c, _ in violations],
@@ -650,10 +673,18 @@ def do_replay(args):
     print('HARNESS-ERROR: ' + err, file=sys.stderr)
     return 2
   bad = 0
+  prefer = None
+  for r in known:
+    if r.get('replay') and os.path.abspath(os.path.join(
+        VERIF, r['replay'])) == os.path.abspath(args.replay):
+      prefer = r
+  printed = set()
   for v in out.violations:
-    k = match_known(known, rec['family'], v['bucket'])
+    k = match_known(known, rec['family'], v['bucket'], prefer=prefer)
     if k is not None:
-      print('KNOWN-FINDING: property=%s %s' % (pid, k['what']))
+      if k['what'] not in printed:
+        printed.add(k['what'])
+        print('KNOWN-FINDING: property=%s %s' % (pid, k['what']))
     else:
       bad += 1
       print('VIOLATION property=%s replay=%s' % (pid, args.replay))
